@@ -67,7 +67,8 @@ def axis_py(ax):
 
 class C08(Prop):
     id = "C08"
-    theorems = []
+    theorems = ["reduce_axes_spec", "fibre_get", "fibre_length", "dealWithAxis_name_pos", "reduce_none_scalar",
+                "reduce_tuple_eq_flatten", "getFunc_table_policy", "getFunc_table_covers"]
     rule = ("float/int/bool arrays of rank 1-4, sizes 1-4, NaN patterns none / some / whole fibre / all; every reduction "
             "(sum prod mean var std min max ptp all any median) x axis by name / position / negative position / tuple of "
             "names in any order / None x skipna; percentile with scalar and list pct. The (function, skipna) -> NumPy "
